@@ -387,6 +387,7 @@ func post(c *ev.Check, outs []*run.Outcome) {
 		c.Require("directed.rotations_under_polls", 1)
 		c.Require("directed.polls_overlapping_a_rotation", 1)
 		c.Require("directed.victims_churned", 1)
+		c.Require("abandon.handler_was_running_when_abandoned", 10)
 		c.Require("scale.rotations", 55)
 		c.Require("scale.poll_week_classes", 3)
 		c.Require("scale.device_runs_completed", 1)
